@@ -1,6 +1,8 @@
 package eval
 
 import (
+	"fmt"
+	"slices"
 	"ti/base"
 	"ti/context"
 	"ti/parser"
@@ -46,6 +48,12 @@ func (d *Comma) Evaluation(
 
 		if nextT.IsEqualIdentifier() {
 			p.Unget()
+
+			// ", a = 1": a target that is not a value cannot be assigned to
+			if slices.Contains(tArray, nil) {
+				return fmt.Errorf("syntax error")
+			}
+
 			p.SetLastEvaluatedT(tArray)
 
 			return nil
